@@ -73,6 +73,16 @@ theorem formatting_confined_abs (t : Term) (p : Placeholder) (m : Mode) (fmt : F
       (t.feedAll (streamToks (.abs px py) (p.endCol - p.startCol) (p.lineToksAll m fmt))).cells y x = t.cells y x :=
   (C07.choreography_abs t p m fmt px py hp hm hsc hfmt hw hh).2.2.1
 
+/-- **`formatting_confined`** for a complete output in the cursor-relative styles (save/restore or relative movement) when
+    nothing scrolls: every cell outside the rectangle at the cursor is exactly what it was. -/
+theorem formatting_confined_at_cursor (save : Bool) (t : Term) (p : Placeholder) (m : Mode) (fmt : FmtT)
+    (hp : p.valid = true) (hm : m.valid = true) (hsc : p.startCol < 297) (hfmt : BgOnly fmt)
+    (hw : t.cx + (p.endCol - p.startCol) ≤ t.w) (hrows : t.cy + (p.endRow - p.startRow) ≤ t.bot + 1) (hbot : t.bot < t.h)
+    (hcub : save = false → (t.cfg.cubFromW = true ∨ t.cx + (p.endCol - p.startCol) < t.w)) :
+    ∀ y x, ¬ (t.cy ≤ y ∧ y < t.cy + (p.endRow - p.startRow) ∧ t.cx ≤ x ∧ x < t.cx + (p.endCol - p.startCol)) →
+      (t.feedAll (streamToks (.atCursor save false) (p.endCol - p.startCol) (p.lineToksAll m fmt))).cells y x = t.cells y x :=
+  (C07.choreography_at_cursor_noscroll save t p m fmt hp hm hsc hfmt hw hrows hbot hcub).2.2.1
+
 /-- the formatting the display path produces is background-only, so the theorems above apply to it -/
 theorem display_formatting_bgOnly (b : Background) : BgOnly (getFormattingT b) := getFormattingT_bgOnly b
 
@@ -83,9 +93,9 @@ example : (⟨255, 0, 0, 296, 3, 298⟩ : Placeholder).valid = true ∧ BgOnly (
    fun _ => by simp [Term.init, Cell.blank, placeholderChar]⟩
 
 /-
-  Stream-level confinement for the cursor-relative styles (`formatting_confined` for a complete output, i.e. including the
-  cells that cursor movement and scrolling create) needs the at-cursor choreography of C07(C); TODO (the absolute style is
-  `formatting_confined_abs`).  The per-line statement above is its induction step:
+  Stream-level confinement when the output scrolls the screen, and for the line-feed styles, needs the remaining part of
+  the choreography of C07(C); TODO (`formatting_confined_abs` and `formatting_confined_at_cursor` cover the absolute style
+  and the non-scrolling cursor-relative styles).  The per-line statement above is its induction step:
   between two lines the SGR state is default (`line_resets`), so cells created by `ESC D` / LF scrolling are default blanks.
 -/
 
